@@ -39,6 +39,8 @@ fn raw_cnt(c: &SeqCase, oc: &[Cnt], nc: &[Cnt], deadline: Option<Instant>) -> Re
 }
 
 pub const POST_EXPIRY_FACTOR: u64 = 4;
+/// the capture pipeline adds Compact's clean-up (prefix/suffix scans between neighbouring ops)
+pub const CAPTURE_POST_EXPIRY_FACTOR: u64 = 8;
 
 /// Wall-clock semantics that probe-indexed time cannot see (one fixed case per run, mode 7):
 /// * a timeout is relative to the start of the diff, not to the moment the builder was configured;
@@ -315,6 +317,28 @@ fn check_case(case: &Case, obs: &mut Obs) -> Verdict {
         if ev != e0 {
             differs = true;
         }
+        // promptness through the capture pipeline (Compact's clean-up compares items as well)
+        {
+            counting::reset();
+            similar::verif::clock::install(Some(k));
+            let r = guard(|| similar::capture_diff_deadline(alg_of(c.alg), &oc[..], c.old_r(), &nc[..], c.new_r(), Some(far_future())));
+            let post_c = counting::post_expiry();
+            similar::verif::clock::install(None);
+            execs += 1;
+            if let Err(p) = r {
+                return Verdict::Fail(format!("capture_diff_deadline with expiry at probe {}: {}", k, p));
+            }
+            if n + m > 0 {
+                obs.metric("capture pipeline: post-expiry comparisons / (N+M)", post_c as f64 / (n + m) as f64);
+            }
+            let bound_c = CAPTURE_POST_EXPIRY_FACTOR * (n + m) as u64 + 16;
+            if post_c > bound_c {
+                return Verdict::Fail(format!(
+                    "{} capture_diff_deadline with expiry at probe {} of {}: {} element comparisons after expiry, more than {}*(N+M)+16 = {} (N={}, M={})",
+                    name, k, t, post_c, CAPTURE_POST_EXPIRY_FACTOR, bound_c, n, m
+                ));
+            }
+        }
         // captured ops at the same expiry index
         let ops = match capture(c, Some(k)) {
             Ok(o) => o,
@@ -575,7 +599,7 @@ impl Prop for C07 {
     const ID: &'static str = "C07";
     const LEVEL: &'static str = "fault_enumeration";
     fn rule() -> String {
-        "cases = (algorithm, old, new, ranges, entry point in {algorithms::diff_deadline, diff_slices_deadline}); for each case the number of deadline probes T is learnt with a never-expiring virtual clock and then EVERY expiry index k in 0..=T is executed (T <= 64) or {0..7, T-1, T} plus 16 generated indices (T > 64) ('executions' counts runs). Families: the shared small mixture, unrelated 50-400 item sequences over alphabets 2-6 (many probes), and the Patience anchor/gap family. Oracle per k: C01 stream validator, finish once and last, C02+C09 oracles on capture_diff_deadline, at most 4*(N+M)+16 element comparisons after expiry (counting PartialEq), k >= T and never-expiring clock => identical to no deadline; plumbing: TextDiffConfig::deadline / ::timeout / capture_diff_slices_deadline give valid scripts at every k, the ops of capture_diff_deadline when the clock expires at the first probe or never, and consult the clock whenever the direct call does; real clock: deadline in the past == expiry at probe 0, deadline one hour ahead == no deadline, a builder on which deadline(past) is set last (alone, after timeout(1 h), after deadline(far)) == expired; wall-clock stage: unrepresentably large timeouts == no deadline (no panic), and a timeout counts from the start of the diff (a builder configured 1.7 s before use with timeout(1.5 s) still gives the exact diff of a tiny input; a mismatch must repeat 3 times). 1 random case in 40 is an expensive input (257-400 items; LCS tables of 66 000-160 000 cells) on which only never-expiring deadlines are executed (virtual, real, capture_diff_deadline, TextDiffConfig::deadline/timeout) and compared with no deadline. Non-trivial = T >= 2 and some expiry index changes the result; distinct = distinct serialized case.".into()
+        "cases = (algorithm, old, new, ranges, entry point in {algorithms::diff_deadline, diff_slices_deadline}); for each case the number of deadline probes T is learnt with a never-expiring virtual clock and then EVERY expiry index k in 0..=T is executed (T <= 64) or {0..7, T-1, T} plus 16 generated indices (T > 64) ('executions' counts runs). Families: the shared small mixture, unrelated 50-400 item sequences over alphabets 2-6 (many probes), and the Patience anchor/gap family. Oracle per k: C01 stream validator, finish once and last, C02+C09 oracles on capture_diff_deadline, at most 4*(N+M)+16 element comparisons after expiry (counting PartialEq; through capture_diff_deadline, whose clean-up compares items too, at most 8*(N+M)+16; measured maxima under metrics_max), k >= T and never-expiring clock => identical to no deadline; plumbing: TextDiffConfig::deadline / ::timeout / capture_diff_slices_deadline give valid scripts at every k, the ops of capture_diff_deadline when the clock expires at the first probe or never, and consult the clock whenever the direct call does; real clock: deadline in the past == expiry at probe 0, deadline one hour ahead == no deadline, a builder on which deadline(past) is set last (alone, after timeout(1 h), after deadline(far)) == expired; wall-clock stage: unrepresentably large timeouts == no deadline (no panic), and a timeout counts from the start of the diff (a builder configured 1.7 s before use with timeout(1.5 s) still gives the exact diff of a tiny input; a mismatch must repeat 3 times). 1 random case in 40 is an expensive input (257-400 items; LCS tables of 66 000-160 000 cells) on which only never-expiring deadlines are executed (virtual, real, capture_diff_deadline, TextDiffConfig::deadline/timeout) and compared with no deadline. Non-trivial = T >= 2 and some expiry index changes the result; distinct = distinct serialized case.".into()
     }
     fn assumptions() -> Vec<String> {
         vec![
